@@ -35,6 +35,9 @@ PATTERN_SETS = [
     ("name_keep", ["--name", "f*", "--keep-name", "f2"]),
     ("two_names", ["--name", "f0", "--name", "f3"]),
 ]
+# the op index mixes idx with idx // period so that the cases sampled for a real run (idx % 6 == 0, idx % 4 == 0)
+# still rotate through all four operations
+OPS4 = ["remove", "link", "softlink", "move"]
 NS = [None, ("-n", 1), ("-n", 2), ("-n", 3), ("--rf-over", 1), ("--rf-over", 2), ("--rf-over", 3)]
 
 
@@ -76,19 +79,18 @@ def cases(tier, seed):
             n = NS[idx % len(NS)]
             tied = idx % 5 == 0
             out.append({"k": k, "rgs": rgs, "prio": pl, "pat": pat[0], "pat_args": pat[1], "n": n, "tied": tied,
-                        "inherit": None, "real": idx % 6 == 0, "op": ["remove", "link", "softlink", "move"][idx % 4]})
+                        "inherit": None, "real": idx % 6 == 0, "op": OPS4[(idx // 6 + idx) % 4]})
         for pat in PATTERN_SETS:
             for n in NS:
                 idx += 1
                 pl = prio_lists[idx % len(prio_lists)]
                 out.append({"k": k, "rgs": rgs, "prio": pl, "pat": pat[0], "pat_args": pat[1], "n": n, "tied": False,
-                            "inherit": None, "real": idx % 6 == 0,
-                            "op": ["remove", "link", "softlink", "move"][idx % 4]})
+                            "inherit": None, "real": idx % 6 == 0, "op": OPS4[(idx // 6 + idx) % 4]})
         for inh in ("isolate", "match_links", "rf2", "transform", "isolate_dot"):
             for pl in ([], ["top"], ["most-nested"], ["bottom", "least-nested"]):
                 idx += 1
                 out.append({"k": k, "rgs": rgs, "prio": pl, "pat": "none", "pat_args": [], "n": None, "tied": False,
-                            "inherit": inh, "real": idx % 4 == 0, "op": ["remove", "link", "softlink", "move"][idx % 4]})
+                            "inherit": inh, "real": idx % 4 == 0, "op": OPS4[(idx // 4 + idx) % 4]})
     # sub-groups of several files with different attributes (isolate roots): every assignment of time ranks to the
     # files x every attribute priority; r1 holds f0..f2, r1x the rest
     for k in ((4,) if quick else (4, 5)):
@@ -352,7 +354,7 @@ def evaluate(case):
                                          detail="%s after %s: %s" % (p, op, b2)))
     nontriv = [case["k"], case["rgs"], case["prio"], case["pat"], case["n"], case["tied"], case["inherit"], case.get("perm")] if exp_drop else None
     return {"violations": viol, "nontrivial": nontriv, "outcome": "drops" if exp_drop else "nothing_to_drop",
-            "counters": {"real_runs": 1 if case["real"] else 0, "aggregated_subgroups": 1 if opts.get("aggregated") else 0},
+            "counters": {"real_runs": 1 if case["real"] else 0, ("real_" + case["op"]): 1 if case["real"] else 0, "aggregated_subgroups": 1 if opts.get("aggregated") else 0},
             "sample": {"case": {k: case[k] for k in ("k", "rgs", "prio", "pat_args", "n", "inherit", "op")},
                        "report_order": [x.split("/t/")[-1] for x in rpaths],
                        "dropped": sorted(x.split("/t/")[-1] for x in exp_drop)}}
@@ -365,4 +367,7 @@ def finish(stats, tier):
             out.append("outcome never observed: " + o)
     if not stats.get("counters", {}).get("real_runs"):
         out.append("no real run sampled")
+    for o in OPS4:
+        if not stats.get("counters", {}).get("real_" + o):
+            out.append("no real run of " + o)
     return out
